@@ -470,7 +470,8 @@ Definition api_attempt (key : N) (o : outcome) (order : list record) : option ap
 (* attempts = the outcomes of the successive attempts so far, each with its split order;
    n = attempts the retry strategy allows (RetryStrategy::attempts, at least 1).
    None = the caller is still waiting for an outcome. *)
-Fixpoint api_loop (key : N) (n : nat) (attempts : list (outcome * list record)) : option api_result :=
+Fixpoint api_loop (key : N) (n : nat) (attempts : list (outcome * list record)) {struct attempts}
+  : option api_result :=
   match attempts with
   | [] => None
   | (o, order) :: rest =>
